@@ -51,7 +51,7 @@ std::string propNoRhs(const FmmCase& c){
     for(size_t i = 0 ; i < results.size() ; ++i){
         const Coord T = mt.leafOf[i];
         auto it = perLeaf.find(T);
-        if(it == perLeaf.end()){ gf::Val v = gf::zero(); if(H > lstop) gf::addPlain(v, ex.local(H - 1, T, lstop)); gf::addPlain(v, ex.nearField(T, -1)); it = perLeaf.emplace(T, v).first; }
+        if(it == perLeaf.end()){ gf::Val v = gf::zero(); if(H > lstop) gf::addPlain(v, ex.farAtLeaf(T, lstop)); gf::addPlain(v, ex.nearField(T, -1)); it = perLeaf.emplace(T, v).first; }
         gf::Val v = it->second; for(int k = 0 ; k < gf::NEVAL ; ++k) v.v[k] = gf::sub(v.v[k], ctx.P.weight(k, long(i), 0)); v.cnt -= 1;
         if(results[i] != v) return "particle " + std::to_string(i) + " accumulated " + fh::valStr(results[i]) + " expected " + fh::valStr(v);
     }
